@@ -89,7 +89,14 @@ def _collapse_preconditions(
     preconditions = [
         group
         for group in preconditions
-        if not any(group is base_group for base_group in base_preconditions)
+        if not any(
+            len(group) == len(base_group)
+            and all(
+                contract is base_contract
+                for contract, base_contract in zip(group, base_group)
+            )
+            for base_group in base_preconditions
+        )
     ]
 
     if not base_preconditions and bases_have_func and preconditions:
@@ -102,7 +109,9 @@ def _collapse_preconditions(
             ).format(func.__qualname__)
         )
 
-    return base_preconditions + preconditions
+    # The groups of the bases are copied so that a precondition which is added to the function later on
+    # (by decorating it once more after the class has been created) does not end up in the group of the base.
+    return [list(group) for group in base_preconditions] + preconditions
 
 
 def _collapse_snapshots(
